@@ -764,6 +764,51 @@ func c12BBoxCurves(r *run.Run) {
 		})
 }
 
+// c12BBoxElevated: cubic curves that are quadratic curves in disguise (outlines converted from TrueType): the
+// cubic coefficient of such a curve is zero up to rounding, which is where a root formula loses its digits.
+func c12BBoxElevated(r *run.Run) {
+	starts, mids, ends := []float64{0.1, 0, 10.3}, []float64{150.3, -77.7, 33.1, 5.05}, []float64{0.7, 0, -20.9}
+	r.Explore(explore.Config{Name: "C12.bbox-elevated"},
+		"CFF glyphs made of one cubic curve that is a degree-elevated quadratic curve with the control values (p, q, r), p in {0.1, 0, 10.3}, q in {150.3, -77.7, 33.1, 5.05}, r in {0.7, 0, -20.9} in x and in y (the extremum of the quadratic curve is known in closed form): GlyphBBox contains the curve and is not larger than its extent rounded outwards",
+		func(c *explore.Ctx) {
+			pick := func(xs []float64, what string) float64 { return xs[c.Choose(len(xs), what)] }
+			px, qx, rx := pick(starts, "x start"), pick(mids, "x control"), pick(ends, "x end")
+			py, qy, ry := pick(starts, "y start"), pick(mids, "y control"), pick(ends, "y end")
+			f, _ := FontFromChoices(gen.FontOpts{NoMeta: true, Compact: true, NoLayout: true}, 1, 1)
+			ol := *f.Outlines.(*cff.Outlines)
+			ol.Glyphs = append([]*cff.Glyph{}, ol.Glyphs...)
+			g := cff.NewGlyph(ol.Glyphs[1].Name, ol.Glyphs[1].Width)
+			g.MoveTo(px, py)
+			g.CurveTo(px+2*(qx-px)/3, py+2*(qy-py)/3, rx+2*(qx-rx)/3, ry+2*(qy-ry)/3, rx, ry)
+			ol.Glyphs[1] = g
+			f.Outlines = &ol
+			ext := func(p, q, r float64) (lo, hi float64) {
+				lo, hi = math.Min(p, r), math.Max(p, r)
+				if d := p - 2*q + r; d != 0 {
+					if t := (p - q) / d; t > 0 && t < 1 {
+						v := (1-t)*(1-t)*p + 2*(1-t)*t*q + t*t*r
+						lo, hi = math.Min(lo, v), math.Max(hi, v)
+					}
+				}
+				return
+			}
+			xlo, xhi := ext(px, qx, rx)
+			ylo, yhi := ext(py, qy, ry)
+			desc := fmt.Sprintf("quadratic curve (%v,%v) (%v,%v) (%v,%v) written as a cubic curve", px, py, qx, qy, rx, ry)
+			c.Sample(func() any { return desc })
+			c.Outcome(desc)
+			c.Nontrivial()
+			b := f.GlyphBBox(1)
+			const eps = 1e-6
+			if float64(b.LLx) > xlo+eps || float64(b.LLy) > ylo+eps || float64(b.URx) < xhi-eps || float64(b.URy) < yhi-eps {
+				c.Fail("C12.query", "GlyphBBox does not contain the outline", "GlyphBBox = %v, the curve extends over [%.4f, %.4f] x [%.4f, %.4f] (%s)", b, xlo, xhi, ylo, yhi, desc)
+			}
+			if float64(b.LLx) < math.Floor(xlo)-eps || float64(b.LLy) < math.Floor(ylo)-eps || float64(b.URx) > math.Ceil(xhi)+eps || float64(b.URy) > math.Ceil(yhi)+eps {
+				c.Fail("C12.query", "GlyphBBox larger than the outline", "GlyphBBox = %v, the curve extends over [%.4f, %.4f] x [%.4f, %.4f] (%s)", b, xlo, xhi, ylo, yhi, desc)
+			}
+		})
+}
+
 // c12WidthQueries: the four ways of asking for an advance width in PDF units agree with each other for every
 // font matrix, also for CID-keyed fonts whose font dictionaries carry matrices of their own.
 func c12WidthQueries(r *run.Run) {
@@ -921,6 +966,7 @@ func init() {
 		c12Derived(r)
 		c12BBoxQuadrants(r)
 		c12WidthQueries(r)
+		c12BBoxElevated(r)
 		c12BBoxCurves(r)
 		c12FontTimes(r)
 	})
